@@ -565,7 +565,7 @@ fn leap_text_oracle(c: &LeapText) -> Verdict {
 
 pub fn subs() -> Vec<Box<dyn DynSub>> {
     vec![
-        sub(Sub { name: "c13.strings", source: Source::Gen(case_strategy, 600_000, 30_000_000), oracle, known, hang_is_violation: true }),
+        sub(Sub { name: "c13.strings", source: Source::Gen(case_strategy, 600_000, 10_000_000), oracle, known, hang_is_violation: true }),
         sub(Sub { name: "c13.out_of_range", source: Source::Gen(reject_only_strategy, 100_000, 3_000_000), oracle, known, hang_is_violation: true }),
         sub(Sub { name: "c13.leap_second_text", source: Source::Enum(leap_text_enum, |_| true), oracle: leap_text_oracle, known: no_known, hang_is_violation: true }),
         crate::props::fuzzsub::c13_fuzz(),
